@@ -1,5 +1,5 @@
 @unit cw20enum
-@shim core.rs cw_utils.rs cw2.rs range.rs
+@shim core.rs cw_utils.rs std_more.rs cw2.rs range.rs
 @properties C19 C20
 
 @struct packages/cw20/src/query.rs AllowanceResponse [default: AllowanceResponse { allowance: Uint128(0), expires: Expiration::Never {} }]
